@@ -50,12 +50,20 @@ Section Spec.
   Definition flatten1 (l : list value) : list value :=
     List.concat (map (fun x => match x with VArr inner => inner | _ => [x] end) l).
 
-  (* texts of the non-NULL arguments, in order *)
+  (* JSON-like through and through: no tagged Go value (int, Ommit, ...) inside *)
+  Fixpoint plain (v : value) : bool :=
+    match v with
+    | VArr l => forallb plain l
+    | VObj kvs => negb (is_tagged_obj kvs) && forallb (fun kv => plain (snd kv)) kvs
+    | _ => true
+    end.
+
+  (* texts of the non-NULL arguments, in order (None: a text this specification does not fix) *)
   Fixpoint texts (l : list value) : option string :=
     match l with
     | [] => Some ""
     | VNull :: r => texts r
-    | x :: r => match fmt_value x, texts r with
+    | x :: r => match (if plain x then fmt_value x else None), texts r with
                 | Some s, Some t => Some (s ++ t)
                 | _, _ => None
                 end
@@ -130,7 +138,7 @@ Section Spec.
             | _, Some tl =>
                 if String.eqb tl "array" then is_val o (VArr [v])
                 else if String.eqb tl "string" then
-                  match fmt_value v with Some s => is_val o (VStr s) | None => true end
+                  match (if plain v then fmt_value v else None) with Some s => is_val o (VStr s) | None => true end
                 else if String.eqb tl "double" then
                   match v with
                   | VNum x => is_val o (VNum x)
